@@ -63,7 +63,7 @@ def run_proofs(fids, tier):
     if not fids:
         return []
     ctx = mp.get_context('spawn')
-    with ctx.Pool(min(len(fids), 14)) as pool:
+    with ctx.Pool(min(len(fids), 14), maxtasksperchild=1) as pool:
         return pool.map(verify_one, [(f, REPO, tier) for f in fids], chunksize=1)
 
 
